@@ -4,6 +4,7 @@ package main
 
 import (
 	"bytes"
+	"context"
 	"encoding/json"
 	"errors"
 	"fmt"
@@ -57,7 +58,20 @@ func (t *stubTransport) RoundTrip(r *http.Request) (*http.Response, error) {
 		return nil, errors.New("transport down")
 	}
 	return &http.Response{StatusCode: 200, Header: http.Header{"Content-Type": []string{"application/json"}},
-		Body: io.NopCloser(bytes.NewBufferString(t.body)), Request: r}, nil
+		Body: io.NopCloser(&ctxReader{ctx: r.Context(), r: bytes.NewBufferString(t.body)}), Request: r}, nil
+}
+
+// like net/http's transport: the response body can be read only while the request's context is alive
+type ctxReader struct {
+	ctx context.Context
+	r   io.Reader
+}
+
+func (c *ctxReader) Read(p []byte) (int, error) {
+	if err := c.ctx.Err(); err != nil {
+		return 0, err
+	}
+	return c.r.Read(p)
 }
 
 type capturedReq struct {
@@ -180,6 +194,57 @@ func (e *c18Env) do(c *c18Call) (o c18Obs) {
 	return o
 }
 
+// two SimpleHTTP instances built from the SAME interceptor slice (with spare capacity): each has its own registration list - what
+// one instance adds, removes or clears is never seen by the other (HTTPChain!Judge applied per instance)
+type c18SibStep struct {
+	Inst int     `json:"inst"`
+	C    c18Call `json:"c"`
+	O    c18Obs  `json:"o"`
+}
+
+func c18Siblings(w *ndWriter) int {
+	n := 0
+	type st struct {
+		inst int
+		c    c18Call
+	}
+	req := func(i int) st { return st{i, c18Call{Op: "Request", Verb: "Get"}} }
+	scripts := [][]st{
+		{{1, c18Call{Op: "Clear"}}, {1, c18Call{Op: "Add", Xs: []int{3}}}, req(2), req(1)},
+		{{1, c18Call{Op: "Add", Xs: []int{3}}}, {2, c18Call{Op: "Add", Xs: []int{4}}}, req(1), req(2)},
+		{{1, c18Call{Op: "Remove", Xs: []int{1}}}, req(2), req(1)},
+		{{2, c18Call{Op: "Add", Xs: []int{5}}}, {1, c18Call{Op: "Add", Xs: []int{6}}}, {1, c18Call{Op: "Add", Xs: []int{3}}}, req(2), req(1), {1, c18Call{Op: "Clear"}}, req(2), req(1)},
+		{req(1), {2, c18Call{Op: "Clear"}}, {2, c18Call{Op: "Add", Xs: []int{4, 4}}}, req(1), req(2)},
+	}
+	for _, capExtra := range []int{0, 2, 6} {
+		for _, initLen := range []int{1, 2, 3} {
+			for _, sc := range scripts {
+				e := newC18Env()
+				base := make([]*network.Interceptor, initLen, initLen+capExtra)
+				init := []int{}
+				for i := 0; i < initLen; i++ {
+					base[i] = e.ics[i+1]
+					init = append(init, i+1)
+				}
+				inst := map[int]*network.SimpleHTTPDef{
+					1: network.NewSimpleHTTPWithClientAndInterceptors(e.clients[1], base...),
+					2: network.NewSimpleHTTPWithClientAndInterceptors(e.clients[2], base...),
+				}
+				steps := []c18SibStep{}
+				for _, x := range sc {
+					c := x.c
+					normC18(&c)
+					e.s = inst[x.inst]
+					steps = append(steps, c18SibStep{Inst: x.inst, C: c, O: e.do(&c)})
+				}
+				w.write(map[string]interface{}{"part": "siblings", "init": init, "steps": steps})
+				n++
+			}
+		}
+	}
+	return n
+}
+
 func normC18(c *c18Call) {
 	if c.Xs == nil {
 		c.Xs = []int{}
@@ -192,6 +257,14 @@ func normC18(c *c18Call) {
 func c18Main(args []string) error {
 	debug.SetMaxStack(64 << 20) // an unbounded transport recursion must die quickly (the crash is the observation)
 	switch args[0] {
+	case "siblings":
+		w, err := newNDWriter(flagVal(args, "out", "c18.sib.ndjson"))
+		if err != nil {
+			return err
+		}
+		defer w.close()
+		fmt.Printf("{\"runs\":%d}\n", c18Siblings(w))
+		return nil
 	case "exec": // exec <histories.ndjson> --out prefix
 		prefix := flagVal(args, "out", "c18.trace")
 		maxl := flagInt(args, "maxlines", 120000)
